@@ -22,7 +22,7 @@ func (g *EvGen) nextSortable(ts int64) *Event {
 	add("a", w.scalar("a", 'n', strconv.Itoa(r.IntN(40)-20)))
 	base := []float64{1000, 1000.00001, 1000.00002, 999.99999, -5.5, 0.25, 123456.789}[r.IntN(7)]
 	add("b", w.scalar("b", 'n', strconv.FormatFloat(base+float64(r.IntN(3))*0.00001, 'f', -1, 64)))
-	add("s", w.scalar("s", 's', []string{"apple", "Apple", "banana", "cherry", "apple pie", "b", "zz", "10", "9", "a1"}[r.IntN(10)]+strconv.Itoa(r.IntN(3))))
+	add("s", w.scalar("s", 's', []string{"apple", "Apple", "banana", "cherry", "apple pie", "b", "zz", "x10", "x9", "a1"}[r.IntN(10)]+strconv.Itoa(r.IntN(3))))
 	raw := "{" + strings.Join(parts, ",") + "}"
 	return &Event{VID: vid, TS: ts, Flat: w.flat, Raw: json.RawMessage(raw)}
 }
